@@ -921,6 +921,64 @@ func guardedIndexStrict(c *Ctx) {
 							continue
 						}
 					}
+					// the length the index is compared with is the length of what is indexed: a guard on the length of
+					// a sibling field of the same struct (and none on the slice itself) protects a different table
+					ownGuard, siblingGuard := false, ""
+					fieldOfBase := func(v ssa.Value) (ssa.Value, string) {
+						u, ok := v.(*ssa.UnOp)
+						if !ok {
+							return nil, ""
+						}
+						fa, ok := u.X.(*ssa.FieldAddr)
+						if !ok {
+							return nil, ""
+						}
+						_, fld, base, okF := FieldOf(fa)
+						if !okF {
+							return nil, ""
+						}
+						return base, fld
+					}
+					for _, f := range FactsAtInstr(in) {
+						bo, ok := f.Cond.(*ssa.BinOp)
+						if !ok {
+							continue
+						}
+						var l ssa.Value
+						switch {
+						case SameValue(strip(bo.X), strip(idx)) && lenOf(bo.Y) != nil:
+							l = lenOf(bo.Y)
+						case SameValue(strip(bo.Y), strip(idx)) && lenOf(bo.X) != nil:
+							l = lenOf(bo.X)
+						default:
+							continue
+						}
+						if SameValue(l, x) {
+							ownGuard = true
+							continue
+						}
+						// a loop running over one of two parallel tables is not a guard: only an explicit test counts
+						if f.If != nil {
+							isHeader := false
+							for _, lp := range Loops(fn) {
+								if lp.Header == f.If.Block() {
+									isHeader = true
+								}
+							}
+							if isHeader {
+								continue
+							}
+						}
+						bx, fx := fieldOfBase(x)
+						bl, fl := fieldOfBase(l)
+						if bx != nil && bl != nil && bx == bl && fx != fl {
+							siblingGuard = fl
+						}
+					}
+					if siblingGuard != "" && !ownGuard {
+						_, fx := fieldOfBase(x)
+						c.Violation("index:guard-on-sibling:"+FuncName(fn)+":"+fx, in.Pos(), "%s reads %s[i] under a comparison of i with len(%s), another field of the same struct, and none with len(%s): the two tables are not indexed by the same thing (positions vs. values) — while a bulk is half indexed the larger keys are refused although the table has them, and acknowledged documents drop out of every posting list of the search", FuncName(fn), fx, siblingGuard, fx)
+					}
 					for _, f := range FactsAtInstr(in) {
 						bo, ok := f.Cond.(*ssa.BinOp)
 						if !ok {
